@@ -933,6 +933,34 @@ func C06(ps *spec.Plan, t *Trace, final *spec.PlanView) []ev.Violation {
 				}
 			}
 		}
+		// gating: the gate was taken at all - a sequence action of the scope begins only after every pre-check and
+		// the initial run of every continuous check of the scope has returned successfully (a group the engine lost,
+		// e.g. because the vault did not hand it back, is a gate that was never taken)
+		if seqs := t.Filter(sc.seqInScope); len(seqs) > 0 {
+			first := seqs[0].Begin
+			for _, s2 := range seqs {
+				if s2.Begin < first {
+					first = s2.Begin
+				}
+			}
+			for gname, g := range map[string]*spec.Checks{"pre": sc.pre, "cont": sc.cont} {
+				if g == nil {
+					continue
+				}
+				for _, a := range g.Actions {
+					passed := false
+					for _, inv := range t.Of(a.Tag) {
+						if inv.End >= 0 && inv.End < first && inv.Out == plug.OK {
+							passed = true
+						}
+					}
+					if !passed {
+						add("gate-not-taken", lvl+","+gname, "sequence action %s of %s was invoked although %s-check %s had not returned successfully before it", seqs[0].Tag, sc.name, gname, a.Tag)
+						break
+					}
+				}
+			}
+		}
 		// gating: a failed pre-check or a failed first continuous-check run
 		gateFail := ""
 		if groupOutcome(t, sc.pre, true) == "fail" {
